@@ -3,9 +3,8 @@
    the file that was read, whatever the spelling the caller used). *)
 From Coq Require Import String Lia List.
 From Econf Require Import Bytes BytesFacts LayeredModel.
+From Econf Require Export CwdModel.
 Local Open Scope N_scope.
-
-Definition is_abs (p : str) : bool := match p with 47 :: _ => true | _ => false end.
 
 Lemma squeeze_abs p : is_abs (squeeze p) = true.
 Proof.
@@ -41,3 +40,61 @@ Proof.
   unfold is_abs in H. unfold real_name at 1.
   destruct c as [|q]; [discriminate|]. do 6 (destruct q as [q|q|]; try discriminate). reflexivity.
 Qed.
+
+(* ---------- the working directory (CwdModel.respell) ---------- *)
+Lemma is_abs_cons c r : is_abs (c :: r) = (c =? 47).
+Proof.
+  destruct (N.eq_dec c 47) as [->|Hn]; [reflexivity|].
+  replace (c =? 47) with false by (symmetry; now apply N.eqb_neq).
+  unfold is_abs. destruct c as [|q]; [reflexivity|]. do 6 (destruct q as [q|q|]; try reflexivity). congruence.
+Qed.
+
+Lemma strip_slashes_rel s : is_abs (strip_slashes s) = false.
+Proof.
+  induction s as [|c r IH]; simpl; [reflexivity|].
+  destruct (c =? 47) eqn:E; [exact IH|]. now rewrite is_abs_cons.
+Qed.
+
+Lemma squeeze_lead_slash x : squeeze (47 :: x) = squeeze x.
+Proof. reflexivity. Qed.
+
+Lemma squeeze_strip s rest : squeeze (strip_slashes s ++ rest) = squeeze (s ++ rest).
+Proof.
+  induction s as [|c r IH]; simpl; [reflexivity|].
+  destruct (c =? 47) eqn:E; [|reflexivity].
+  apply N.eqb_eq in E. subst c. rewrite IH. symmetry. apply squeeze_lead_slash.
+Qed.
+
+Lemma respell_abs cwd p : is_abs p = true -> respell cwd p = p.
+Proof. intros H. unfold respell. now rewrite H. Qed.
+
+Lemma respell_rel cwd p : is_abs p = false -> is_abs (respell cwd p) = false.
+Proof.
+  intros H. unfold respell. rewrite H.
+  pose proof (strip_slashes_rel cwd) as S.
+  destruct (strip_slashes cwd) as [|c d]; [exact H|].
+  simpl app. rewrite is_abs_cons in *. exact S.
+Qed.
+
+Lemma respell_squeeze cwd p : is_abs p = false -> squeeze (respell cwd p) = squeeze (cwd ++ 47 :: p).
+Proof.
+  intros H. unfold respell. rewrite H.
+  rewrite <- (squeeze_strip cwd (47 :: p)).
+  destruct (strip_slashes cwd) as [|c d]; [symmetry; apply squeeze_lead_slash|reflexivity].
+Qed.
+
+(* so the file the model reads for the re-spelled name is the one named by cwd/p *)
+Lemma respell_real_name t cwd p : is_abs p = false ->
+  real_name t (respell cwd p) = fs_resolve 8 t (squeeze (cwd ++ 47 :: p)).
+Proof.
+  intros H. pose proof (respell_rel cwd p H) as R. rewrite <- (respell_squeeze cwd p H).
+  unfold real_name. destruct (respell cwd p) as [|c r]; [reflexivity|].
+  rewrite is_abs_cons in R. apply N.eqb_neq in R.
+  destruct c as [|q]; [reflexivity|]. do 6 (destruct q as [q|q|]; try reflexivity). congruence.
+Qed.
+
+Example respell_demo :
+  respell (bs "/cw/b") (bs "app.conf") = bs "cw/b/app.conf" /\
+  respell (bs "/") (bs "x") = bs "x" /\ respell [] (bs "x") = bs "x" /\
+  respell (bs "/cw") (bs "/abs") = bs "/abs".
+Proof. vm_compute. repeat split. Qed.
